@@ -75,6 +75,8 @@ structure St (C G : Type) where
   sec : Path := []
   blk : Option (Nat × C) := none
   lnk : Option (Nat × C) := none
+  /-- `_link_pending`: the current link has not been registered yet -/
+  pending : Bool := false
   mod : Option (Nat × C) := none
   blocks : List (Option String × (Nat × C)) := []
   links : List (Nat × C) := []
@@ -92,9 +94,24 @@ def dictOfList {K V : Type} [DecidableEq K] (l : List (K × V)) : List (K × V) 
 
 variable {C G : Type}
 
-/-- `FFDirector.finalize_section(previous_section, _)` (repaired: the link context is
-registered only when the section that ended is a link section). -/
-def ffFinalize (P : Params C G) (s : St C G) (prev : Path) : St C G :=
+/-- `FFDirector.finalize_section(previous_section, _)` as repaired by the commits for
+F-C13-1 and F-C13-2: the link context is registered iff it has not been registered yet. -/
+def ffFinalize (P : Params C G) (s : St C G) (_prev : Path) : St C G :=
+  let blocks := match s.blk with
+    | some b => dictSet s.blocks (P.nameOf b.2) b
+    | none => s.blocks
+  let emit := s.lnk.isSome && s.pending
+  let links := match s.lnk with
+    | some l => if s.pending then s.links ++ [l] else s.links
+    | none => s.links
+  let mods := match s.mod with
+    | some m => dictSet s.mods (P.nameOf m.2) m
+    | none => s.mods
+  { s with blocks := blocks, links := links, mods := mods, pending := if emit then false else s.pending }
+
+/-- the first repair (F-C13-1 only): registration keyed on the name of the section that ended;
+loses a link followed by a header outside the dispatch table (F-C13-2). Kept for the witness. -/
+def ffFinalizeV1 (P : Params C G) (s : St C G) (prev : Path) : St C G :=
   let blocks := match s.blk with
     | some b => dictSet s.blocks (P.nameOf b.2) b
     | none => s.blocks
@@ -122,7 +139,7 @@ def ffFinalizeOld (P : Params C G) (s : St C G) (_prev : Path) : St C G :=
 /-- `header_actions.get(tuple(self.section))` -/
 def ffAction (P : Params C G) (s : St C G) (i : Nat) : St C G :=
   if s.sec = ["moleculetype"] then { s with blk := some (i, P.fresh .block) }
-  else if s.sec = ["link"] then { s with lnk := some (i, P.fresh .link) }
+  else if s.sec = ["link"] then { s with lnk := some (i, P.fresh .link), pending := true }
   else if s.sec = ["modification"] then { s with mod := some (i, P.fresh .modification) }
   else s
 
@@ -174,6 +191,9 @@ def ffRun (P : Params C G) (g0 : G) (lines : List Line) : Option (St C G) :=
 
 def ffRunOld (P : Params C G) (g0 : G) (lines : List Line) : Option (St C G) :=
   ffRunFromWith ffFinalizeOld P { g := g0 } 0 lines
+
+def ffRunV1 (P : Params C G) (g0 : G) (lines : List Line) : Option (St C G) :=
+  ffRunFromWith ffFinalizeV1 P { g := g0 } 0 lines
 
 /-! ### ITPDirector: one kind of context (blocks); `finalize_section` runs at every header -/
 
